@@ -12,7 +12,7 @@ Definition summ (src : srcp) (c : cfg) (sched : list step) : gs := gs_outs gs0 (
 
 Definition plain_cfg : cfg :=
   {| c_oneway := false; c_data := false; c_trailers := false; c_route := RouteForward; c_nhosts := 2%nat; c_retry_on := false;
-     c_num_retries := 0%nat; c_codes := []; c_try_timeout := false; c_max_retries := 0; c_recv := []; c_send := []; c_pool := []; c_delay := []; c_snd_err_hdr := false; c_snd_err_data := false; c_snd_err_trl := false; c_http := false; c_nohost_from := None; c_late_reset := false |}.
+     c_num_retries := 0%nat; c_codes := []; c_try_timeout := false; c_max_retries := 0; c_recv := []; c_send := []; c_pool := []; c_delay := []; c_snd_err_hdr := false; c_snd_err_data := false; c_snd_err_trl := false; c_http := false; c_nohost_from := None; c_late_reset := false; c_disable_retry := false |}.
 
 (* the worker runs whenever it can, every sleep ends: 120 rounds of [Worker; Worker; Worker; wake] *)
 Definition drive : list step := concat (repeat [Worker; Worker; Worker; Env EvWake] 120).
@@ -310,4 +310,12 @@ Lemma witness_reset_mid_response :
   trace src_tree cfg_late_reset sched_reset_mid_response =
     [OChoose; OUpNew 0 PoolOk; OUpHdr 0 true 1; ODownHdr false KUp 200; ODownReset; OGauge (-1); OLog; ODestroy] /\
   cleaned (final src_tree cfg_late_reset sched_reset_mid_response) = true.
+Proof. vm_compute. repeat split; reflexivity. Qed.
+
+(* ---------- proxy_disable_retry ---------- *)
+Definition src_disable_late : srcp := src_tree <| disable_retry_first := false |>.
+Definition cfg_disabled : cfg := plain_cfg <| c_disable_retry := true |> <| c_pool := [PoolConnFail] |>.
+Lemma witness_disable_retry :
+  nnew (final src_disable_late cfg_disabled drive) = 2%nat /\ nnew (final src_tree cfg_disabled drive) = 1%nat /\
+  g_reply_kind (summ src_tree cfg_disabled drive) = Some (KHijack, reason_code src_tree RsConnFailed).
 Proof. vm_compute. repeat split; reflexivity. Qed.
